@@ -153,6 +153,9 @@ def run(ctx):
                     ans += [rng.choice(["?", "ZZ", "0", "no", "-"]) for _ in range(n_bad)]
                 ans.append(rng.choice(VOCAB[iver[0]]["legal"][m]))
             scripts.append((iver, allm, ans))
+    from .. import conc
+    fl = [["I", iv, al, an] for iv, al, an in scripts[nsel:][:: max(1, (len(scripts) - nsel) // ctx.n(60, 600))] if len(an) < 200 and all(core.sendable(x) for x in an)]
+    conc.flag_variants(ctx, fl, "interactive")
     ctx.count(len(scripts))
     ctx.extra["selectability_scripts"] = nsel
     ctx.sample({"version": scripts[nsel][0], "all_metrics": scripts[nsel][1], "answers": scripts[nsel][2]})
